@@ -148,6 +148,15 @@ def main(argv):
     k, nshards, seed = int(k), int(nshards), int(seed)
     t0 = time.time()
     res = {"sub": subname, "shard": k, "hashseed": os.environ.get("PYTHONHASHSEED"), "harness_error": None}
+    # the runner sends SIGUSR1 before it gives up on a shard: leave the Python stacks where it can read them
+    try:
+        import faulthandler
+        import signal
+
+        _stack = open(os.path.join(os.environ.get("VF_TMP", "."), "stack.txt"), "w")
+        faulthandler.register(signal.SIGUSR1, file=_stack, all_threads=True)
+    except Exception:  # noqa: BLE001
+        pass
     try:
         core.setup_repo_import()
         mod = importlib.import_module(f"vf.props.{prop.lower()}")
